@@ -149,7 +149,7 @@ fn replay(cfg: &Value, dir: &str) {
         }
         let view = net.view();
         if bad.is_none() {
-            for k in ["pst", "ppi", "gmid", "steps"] {
+            for k in ["pst", "ppi", "gmid", "gm", "steps"] {
                 if view[k] != e["exp"][k] { bad = Some(format!("{}: model {} real {}", k, e["exp"][k], view[k])); *mism.entry(k.to_string()).or_default() += 1; break; }
             }
         }
